@@ -2,12 +2,14 @@ package checks
 
 import (
 	"fmt"
+	"os"
 
 	"sigs.k8s.io/karpenter/pkg/operator/options"
 
 	"verif/internal/enum"
 	"verif/internal/ev"
 	"verif/internal/explore"
+	"verif/world"
 )
 
 type schedSpace struct {
@@ -20,6 +22,8 @@ type schedSpace struct {
 	workers  []int // worker counts explored with H1 (1 = sequential only)
 	bound    int   // completion-order deviations per pass
 	reserved bool
+	// skip prunes cases of the product (reported as an outcome, never silently)
+	skip func(c SchedCase) bool
 }
 
 func (s schedSpace) size() int64 {
@@ -44,12 +48,19 @@ func seq(n int) []int {
 var allPolicies = [][2]string{{"Respect", "Strict"}, {"Ignore", "BestEffort"}, {"Respect", "BestEffort"}, {"Ignore", "Strict"}}
 
 func c01Space(tier string) schedSpace {
+	// the settled+fresh two-node configuration is about daemonset overhead on existing nodes: it is combined with the
+	// daemonset configurations only (quick: catalog K1 and the first policy pair only)
+	settledFresh := len(nodeCfgs) - 1
 	if tier == "thorough" {
 		return schedSpace{catalogs: []string{"K1", "K2", "K4"}, pools: seq(len(poolCfgs)), nodes: seq(len(nodeCfgs)), ds: seq(len(dsCfgs)),
-			policies: allPolicies, batches: batches(len(podShapes), 2), workers: []int{2, 3}, bound: 2}
+			policies: allPolicies, batches: batches(len(podShapes), 2), workers: []int{2, 3}, bound: 2,
+			skip: func(c SchedCase) bool { return c.Nodes == settledFresh && (c.DS == 0 || c.Catalog != "K1") }}
 	}
 	return schedSpace{catalogs: []string{"K1", "K2", "K4"}, pools: seq(len(poolCfgs)), nodes: seq(len(nodeCfgs)), ds: seq(len(dsCfgs)),
-		policies: allPolicies[:2], batches: batches(len(podShapes), 2), workers: []int{2}, bound: 1}
+		policies: allPolicies[:2], batches: batches(len(podShapes), 2), workers: []int{2}, bound: 1,
+		skip: func(c SchedCase) bool {
+			return c.Nodes == settledFresh && (c.DS == 0 || c.Catalog != "K1" || string(c.Pref) != allPolicies[0][0] || string(c.MinV) != allPolicies[0][1])
+		}}
 }
 
 // forEachPass runs every case of the space, and for every case every candidate-evaluation schedule within the bound,
@@ -58,6 +69,10 @@ func forEachPass(r *ev.Rec, sp schedSpace, judge func(env *SchedEnv, out schedOu
 	var multi, schedules int64
 	enum.Run(r, sp.size(), func(i int64, l *ev.Local) {
 		c := sp.decode(i)
+		if sp.skip != nil && sp.skip(c) {
+			l.Outcome("case-outside-the-explored-sub-product")
+			return
+		}
 		for _, wk := range sp.workers {
 			c.Workers = wk
 			digests := map[string]bool{}
@@ -98,6 +113,10 @@ func init() {
 		r.Assumptions = []string{"Go map iteration order is not owned (DESIGN §2.6): each case is executed once per schedule",
 			"a fresh world per execution; fake API server; daemonset pods are not yet running on existing nodes",
 			"label-determined constraints are required on EVERY permitted launch, resources on SOME compatible offering per instance type (as the statement words it)"}
+		if os.Getenv("C01_ONLY_FAULTS") != "" { // debug: the read-fault part alone
+			c01ReadFaults(r)
+			return
+		}
 		forEachPass(r, sp, func(env *SchedEnv, out schedOutcome, l *ev.Local, c SchedCase, idx int64) {
 			if out.Err != nil {
 				l.Outcome("schedule-error")
@@ -115,6 +134,63 @@ func init() {
 				l.Sample(map[string]any{"case": c.String(), "outcome": out.Digest, "placements_judged": placements})
 			}
 		})
+		c01ReadFaults(r)
+	})
+}
+
+// c01ReadFaults — the same oracle while API READS fail during the pass: every batch of <=2 shapes that contains a pod with
+// a volume (the placement then depends on objects Karpenter has to look up: claim, volume, storage class) x pools x
+// existing capacity, with any one read of the pass failing once. A pass may then place less; what it places must still be
+// admissible (a pod whose volume zone could not be determined must not be placed as if it had none).
+func c01ReadFaults(r *ev.Rec) {
+	var bl [][]int
+	for _, b := range batches(len(podShapes), 2) {
+		for _, x := range b {
+			if podShapes[x].storage != "" {
+				bl = append(bl, b)
+				break
+			}
+		}
+	}
+	pools := []int{0, 1}
+	nodes := []int{0, 1, 6}
+	bound := 1
+	if r.Tier == "thorough" {
+		pools, bound = seq(len(poolCfgs)), 2
+	}
+	r.Extra["read_fault_cases"] = enum.Size(len(bl), len(pools), len(nodes))
+	enum.Run(r, enum.Size(len(bl), len(pools), len(nodes)), func(idx int64, l *ev.Local) {
+		d := enum.Odo(idx, len(bl), len(pools), len(nodes))
+		c := SchedCase{Batch: bl[d[0]], Catalog: "K1", Pool: pools[d[1]], Nodes: nodes[d[2]], Pref: options.PreferencePolicyRespect, MinV: options.MinValuesPolicyStrict, Workers: 1}
+		ex := &explore.Explorer{Bound: bound, MaxExecs: 20000, Stop: r.Expired}
+		ex.Exec = func(run *explore.Run) {
+			env := buildSched(c)
+			w := env.W
+			taken := w.AttachFaultsOpt(run, func(cl *world.Call) bool { return cl.Verb == "get" || cl.Verb == "list" }, false)
+			out := env.runPass(explore.Replay(nil), 1)
+			w.Client.Hook, w.CP.Hook = nil, nil
+			l.Eval()
+			l.Traces++
+			var faults []string
+			for _, f := range *taken {
+				faults = append(faults, f.Call+"="+f.Fault)
+			}
+			if out.Err != nil {
+				l.Outcome("read-faults: schedule-error")
+				return
+			}
+			viol, placements := env.judgePlacements(out)
+			if len(faults) > 0 {
+				l.NontrivialH(ev.H(fmt.Sprintf("rf/%d/%v/%s", idx, faults, out.Digest)))
+			}
+			l.Outcome(fmt.Sprintf("read-faults: placed=%v", placements > 0))
+			for _, v := range viol {
+				l.Violation(v.Sig+" (while a read failed)", v.Msg+fmt.Sprintf("  [%s; failing reads %v]", c.String(), faults), map[string]any{"case": c, "faults": faults, "plan": run.Plan(), "outcome": out.Digest})
+			}
+		}
+		ex.Explore()
+		noteDiverged(l, ex, "read-faults")
+		l.Transitions += int64(ex.Points)
 	})
 }
 
